@@ -1514,4 +1514,106 @@ Section Cover.
         rewrite (watch_of_ino_in k (f_ino ep) kw) in Ew; [discriminate | apply I | assumption | assumption].
       + apply (Cover_ext (w_fs w) _ k); try assumption. intros e He De. now apply Ht1.
   Qed.
+
+  (* ------------------------------------------------------------------ the re-key loop (C14 at work) *)
+  Section Rekey.
+    Variables src dst : bytes.
+    Hypothesis Hsrc : src <> [].
+    Hypothesis Hsd : forall rest, under src (dst ++ sep :: rest) = false.   (* nothing below dst is below src *)
+    Variable r0 : rstate.
+    Hypothesis K1 : forall x wd, alookup beqb x (wfp r0) = Some wd -> under dst x = false.
+    Hypothesis K2 : forall x y wd, alookup beqb x (wfp r0) = Some wd -> alookup beqb y (wfp r0) = Some wd -> x = y.
+
+    Record RK (r : rstate) : Prop := {
+      j1 : forall x wd, alookup beqb x (wfp r) = Some wd ->
+             exists x0, alookup beqb x0 (wfp r0) = Some wd /\ (x = x0 \/ (under src x0 = true /\ x = rk src dst x0));
+      j2 : forall x0 wd, alookup beqb x0 (wfp r0) = Some wd ->
+             alookup beqb x0 (wfp r) = Some wd \/
+             (under src x0 = true /\ alookup beqb x0 (wfp r) = None /\ alookup beqb (rk src dst x0) (wfp r) = Some wd /\
+              alookup N.eqb wd (pfw r) = Some (rk src dst x0));
+      j3 : forall wd, (forall x0, under src x0 = true -> alookup beqb x0 (wfp r0) <> Some wd) ->
+             alookup N.eqb wd (pfw r) = alookup N.eqb wd (pfw r0);
+      j5 : mvf r = mvf r0
+    }.
+
+    Lemma RK_init : RK r0.
+    Proof. constructor; eauto. Qed.
+
+    Lemma rk_under_dst x : under src x = true -> exists rest, rk src dst x = dst ++ sep :: rest /\ x = src ++ sep :: rest.
+    Proof. intros H. apply under_spec in H as [rest ->]. exists rest. now rewrite rk_under. Qed.
+
+    Lemma rk_inj x y : under src x = true -> under src y = true -> rk src dst x = rk src dst y -> x = y.
+    Proof.
+      intros Hx Hy E. destruct (rk_under_dst x Hx) as (a & Ea & ->). destruct (rk_under_dst y Hy) as (b & Eb & ->).
+      rewrite Ea, Eb in E. apply app_inv_head in E. congruence.
+    Qed.
+
+    Lemma RK_step r x wd : RK r -> under src x = true -> alookup beqb x (wfp r) = Some wd ->
+      RK {| wfp := aset beqb (rk src dst x) wd (aremove beqb x (wfp r)); pfw := aset N.eqb wd (rk src dst x) (pfw r);
+            mvf := mvf r; calls := calls r |}.
+    Proof.
+      intros J Hx Hb.
+      assert (Hnx : forall y z, under src y = true -> under src z = true -> y = rk src dst z -> False).
+      { intros y z Hy Hz E. destruct (rk_under_dst z Hz) as (a & Ea & _). rewrite Ea in E. rewrite E, Hsd in Hy. discriminate. }
+      (* the binding of x is an original one *)
+      assert (Hx0 : alookup beqb x (wfp r0) = Some wd).
+      { destruct (j1 r J x wd Hb) as (x0 & H0 & [->|[Hu E]]); [exact H0|]. exfalso. exact (Hnx x x0 Hx Hu E). }
+      constructor; cbn [wfp pfw mvf].
+      - intros y wd' Hy. destruct (bytes_eq_dec y (rk src dst x)) as [->|Hne].
+        + rewrite wset_eq in Hy. injection Hy as <-. exists x. split; [exact Hx0 | right; now split].
+        + rewrite wset_neq in Hy by assumption. destruct (bytes_eq_dec y x) as [->|Hne2]; [now rewrite wrem_eq in Hy|].
+          rewrite wrem_neq in Hy by assumption. now apply (j1 r J).
+      - intros x0 wd0 H0. destruct (bytes_eq_dec x0 x) as [->|Hne].
+        + assert (wd0 = wd) by congruence. subst wd0. right. split; [exact Hx|]. split; [|split].
+          * rewrite wset_neq by (intros E; exact (Hnx x x Hx Hx E)). apply wrem_eq.
+          * apply wset_eq.
+          * apply pset_eq.
+        + destruct (j2 r J x0 wd0 H0) as [Hs|(Hu & Hn & Hm & Hp)].
+          * left. rewrite wset_neq.
+            -- now rewrite wrem_neq.
+            -- intros E. destruct (rk_under_dst x Hx) as (a & Ea & _). rewrite Ea in E.
+               apply K1 in H0. rewrite E, under_app in H0. discriminate.
+          * right. split; [exact Hu|]. split; [|split].
+            -- rewrite wset_neq by (intros E; exact (Hnx x0 x Hu Hx E)). now rewrite wrem_neq.
+            -- rewrite wset_neq by (intros E; apply Hne; now apply rk_inj).
+               rewrite wrem_neq; [exact Hm|]. intros E. symmetry in E. exact (Hnx x x0 Hx Hu E).
+            -- rewrite pset_neq; [exact Hp|]. intros ->. apply Hne. eapply K2; eauto.
+      - intros wd' Hw. rewrite pset_neq; [now apply (j3 r J)|]. intros ->. now apply (Hw x).
+      - apply J.
+    Qed.
+
+    Lemma rekey_loop_spec keys : forall r, RK r ->
+      (forall x, under src x = true -> alookup beqb x (wfp r) <> None -> In x (map fst keys)) ->
+      RK (rekey_loop keys src dst r) /\
+      (forall x, under src x = true -> alookup beqb x (wfp (rekey_loop keys src dst r)) = None).
+    Proof.
+      induction keys as [|[p wd0] keys IH]; intros r J J4; cbn [rekey_loop].
+      - split; [exact J|]. intros x Hx. destruct (alookup beqb x (wfp r)) eqn:E; [|reflexivity].
+        exfalso. apply (J4 x Hx). congruence.
+      - change (starts (src ++ [sep]) p) with (under src p). destruct (under src p) eqn:Hp.
+        + destruct (alookup beqb p (wfp r)) as [wd|] eqn:Eb.
+          * assert (Enp : replace_first src dst p = rk src dst p).
+            { apply under_spec in Hp as [rest ->]. rewrite rk_under.
+              change (src ++ sep :: rest) with (src ++ (sep :: rest)). now apply replace_first_prefix. }
+            rewrite Enp. apply IH; [now apply RK_step|]. cbn [wfp]. intros x Hx Hb.
+            destruct (bytes_eq_dec x (rk src dst p)) as [->|Hne].
+            { exfalso. destruct (rk_under_dst p Hp) as (a & Ea & _). rewrite Ea, Hsd in Hx. discriminate. }
+            rewrite wset_neq in Hb by assumption. destruct (bytes_eq_dec x p) as [->|Hne2]; [now rewrite wrem_eq in Hb|].
+            rewrite wrem_neq in Hb by assumption. destruct (J4 x Hx Hb) as [E|Hin]; [cbn in E; congruence | exact Hin].
+          * apply IH; [exact J|]. intros x Hx Hb. destruct (J4 x Hx Hb) as [E|Hin]; [cbn in E; congruence | exact Hin].
+        + apply IH; [exact J|]. intros x Hx Hb. destruct (J4 x Hx Hb) as [E|Hin]; [cbn in E; congruence | exact Hin].
+    Qed.
+
+    Lemma alookup_fst {V} (x : bytes) (m : list (bytes * V)) : alookup beqb x m <> None -> In x (map fst m).
+    Proof.
+      induction m as [|[a v] m IH]; cbn; [congruence|]. destruct (beqb x a) eqn:E.
+      - apply beqb_eq in E. auto.
+      - auto.
+    Qed.
+
+    (* the whole loop, started on its own key list *)
+    Theorem rekey_all : let r := rekey_loop (wfp r0) src dst r0 in
+      RK r /\ (forall x, under src x = true -> alookup beqb x (wfp r) = None).
+    Proof. apply rekey_loop_spec; [apply RK_init|]. intros x _. apply alookup_fst. Qed.
+  End Rekey.
 End Cover.
